@@ -207,7 +207,7 @@ HCOBS_KANI = KaniUnit(
                 kind="proof", timeout=600),
         Harness("c07_find_stuff_sequence_bounded", ["C07", "C01", "C02"], "find_stuff_sequence",
                 "Some(i) => FE FD at i and at no earlier index; None => at no index (the contract assumed by the Verus unit)",
-                kind="bounded", bound="every slice of length <= {L}", covers=3, timeout=900),
+                kind="bounded", bound="every slice of length <= {L}", covers=3, timeout=3000),
     ],
 )
 
